@@ -65,6 +65,10 @@ impl SyslogWriter {
 }
 impl LogWriter for SyslogWriter {
     fn write(&self, now: &mut DeferredNow, record: &log::Record) -> IoResult<()> {
+        // records that are addressed with a brace target are not filtered by the log specification
+        if record.level() > self.max_log_level {
+            return Ok(());
+        }
         let mut conn_buf_guard = self
             .m_conn_buf
             .lock()
